@@ -73,6 +73,7 @@ type vrPoll struct {
 	sizes    []string
 	bad      []string
 	gate     chan struct{} // when non-nil the next batch waits here before it is handled
+	atGate   int32         // the loop is waiting at the gate
 }
 
 func (v *vrPoll) fail(s string) { v.bad = append(v.bad, s) }
@@ -80,6 +81,7 @@ func (v *vrPoll) fail(s string) { v.bad = append(v.bad, s) }
 // wrapped Handler: log the batch, run the real handler, log the outcome
 func (v *vrPoll) handle(events []epollevent) bool {
 	if g := v.gate; g != nil {
+		atomic.StoreInt32(&v.atGate, 1)
 		<-g
 	}
 	v.mu.Lock()
@@ -178,7 +180,7 @@ func (v *vrPoll) handle(events []epollevent) bool {
 		g := 0
 		if c := v.conns[ops[i]]; c != nil && c.d.b >= 0 {
 			if sent[c.id] > 0 && c.tcp {
-				vpSettle(c.d.b, 0x1)
+				vpSettleBytes(c.d.b, c.d.prefill+sent[c.id])
 			}
 			g = vpDrain(c.d.b) - c.d.prefill
 			c.d.prefill = 0
@@ -285,11 +287,17 @@ func (v *vrPoll) act(c *vrConn, a string) {
 			return
 		}
 		c.written += n
+		if c.tcp {
+			vpSettleBytes(c.d.a, c.written-c.acked)
+		}
 	case 'o':
 		if vpWriteAll(c.d.a, make([]byte, n)) != nil {
 			return
 		}
 		c.d.prefill += n
+		if c.tcp {
+			vpSettleBytes(c.d.b, c.d.prefill)
+		}
 	case 'c', 'l':
 		if c.d.b < 0 {
 			return
@@ -300,11 +308,17 @@ func (v *vrPoll) act(c *vrConn, a string) {
 		syscall.Close(c.d.b)
 		c.d.b = -1
 		c.gone = true
+		if c.tcp {
+			vpSettle(c.d.a, 0x2000|0x10|0x8)
+		}
 	case 's':
 		if c.d.b < 0 || syscall.Shutdown(c.d.b, syscall.SHUT_WR) != nil {
 			return
 		}
 		c.gone = true
+		if c.tcp {
+			vpSettle(c.d.a, 0x2000)
+		}
 	}
 	c.hist = append(c.hist, a)
 }
@@ -515,7 +529,12 @@ func vrRun(seed int64, growth bool, ow, iw *bufio.Writer) {
 		v.mu.Lock()
 		p.Trigger() // the loop wakes up and waits at the gate
 		v.mu.Unlock()
-		time.Sleep(2 * time.Millisecond)
+		for dl := time.Now().Add(10 * time.Second); atomic.LoadInt32(&v.atGate) == 0 && time.Now().Before(dl); {
+			time.Sleep(100 * time.Microsecond)
+		}
+		if atomic.LoadInt32(&v.atGate) == 0 {
+			v.fail("growth: Trigger did not bring the loop to the gate")
+		}
 		var extra []*vrConn
 		for i := 0; i < 131; i++ {
 			c, err := v.newConn(1000+i, false, 8)
